@@ -415,6 +415,9 @@ class KTr:
         return tr.expr(e2)
 
     def flit(self, v):
+        import math as _m
+        if v == 0 and _m.copysign(1.0, v) < 0:
+            return "(Scalar.neg (Scalar.ofInt (0 : Int) : α))"      # the literal -0.0 (e.g. the real part of `-1j`)
         if v == int(v) and abs(v) < 2 ** 53:
             return f"(Scalar.ofInt ({int(v)} : Int) : α)"
         if v == 0.5:
@@ -459,6 +462,8 @@ class KTr:
             return f"(Cx.conj {self.cexpr(e.func.value)})"
         if isinstance(e, ast.UnaryOp) and isinstance(e.op, ast.UAdd):
             return self.cexpr(e.operand)
+        if isinstance(e, ast.UnaryOp) and isinstance(e.op, ast.USub):
+            return f"(Cx.neg {self.cexpr(e.operand)})"
         if isinstance(e, ast.BinOp) and isinstance(e.op, ast.Pow):
             self.uses_cpowi = True
             return f"(cpowi {self.cexpr(e.left)} {self.iexpr(e.right)})"
@@ -1777,4 +1782,108 @@ def generate_diffkern(fns, gen_dir, write_if_changed):
         sig[k.name] = [(p, k.kinds[p]) for p in k.params]
     out.append("end\nend Gen\n")
     write_if_changed(os.path.join(gen_dir, "DiffKern.lean"), "\n".join(out))
+    return sig
+
+
+# ---------------------------------------------------------------------------------------------------------------------
+# spherical/modes/algebra.py: the loops of conjugate / _real_func / _imag_func
+# ---------------------------------------------------------------------------------------------------------------------
+ALG_HEADER = """import SphericalVerif.Gen.Indexing
+import SphericalVerif.Model.FlatMem
+/-! GENERATED by vlib/py2lean_kern.py from spherical/modes/algebra.py (the `for ell in …` loops of `conjugate`, `_real_func`,
+    `_imag_func`) -- do not edit.  Regenerated on every check.
+
+    One element of the leading axes (`a[..., i]` read as `a[i]`).  Each loop in two forms, as the method's
+    `c = s if inplace else np.zeros_like(s)` selects them: `<name>_loop` reads the input `s` (read-only) and writes the fresh
+    array `c`; `<name>_inplace_loop` has `c` and `s` the same array (the text with `c` replaced by `s`).  A tuple assignment
+    `a, b = e1, e2` evaluates both right-hand sides first (temporaries `t1_`, `t2_`), as Python does; `np.conjugate(x)`, `np.real(x)`,
+    `np.imag(x)`, unary minus are `Cx.conj`, `.re`, `.im`, `Cx.neg`; `LM_index` is `Yindex`; `self.<attr>` are parameters. -/
+set_option linter.unusedVariables false
+namespace Gen
+section
+open Scalar
+variable {α : Type} [Scalar α] {φ : Type} [FMem φ α]
+"""
+
+
+class _AlgRewrite(ast.NodeTransformer):
+    def __init__(self, inplace):
+        self.inplace = inplace
+        self.n = 0
+
+    def visit_Name(self, node):
+        if node.id == "LM_index":
+            return ast.Name(id="Yindex", ctx=node.ctx)
+        if self.inplace and node.id == "c":
+            return ast.Name(id="s", ctx=node.ctx)
+        return node
+
+    def visit_Attribute(self, node):
+        node = self.generic_visit(node)
+        if isinstance(node.value, ast.Name) and node.value.id == "self":
+            return ast.Name(id=f"self_{node.attr}", ctx=node.ctx)
+        return node
+
+    def visit_Call(self, node):
+        node = self.generic_visit(node)
+        f = ast.unparse(node.func)
+        if f == "np.conjugate" and len(node.args) == 1:
+            return ast.Call(func=ast.Attribute(value=node.args[0], attr="conjugate", ctx=ast.Load()), args=[], keywords=[])
+        if f in ("np.real", "np.imag") and len(node.args) == 1:
+            return ast.Attribute(value=node.args[0], attr=f[3:], ctx=ast.Load())
+        return node
+
+    def visit_Subscript(self, node):
+        node = self.generic_visit(node)
+        sl = node.slice
+        if isinstance(sl, ast.Tuple) and len(sl.elts) == 2 and isinstance(sl.elts[0], ast.Constant) and sl.elts[0].value is Ellipsis:
+            return ast.Subscript(value=node.value, slice=sl.elts[1], ctx=node.ctx)
+        return node
+
+    def visit_Assign(self, node):
+        node = self.generic_visit(node)
+        t = node.targets[0]
+        if len(node.targets) == 1 and isinstance(t, ast.Tuple):
+            if not (isinstance(node.value, ast.Tuple) and len(node.value.elts) == len(t.elts)):
+                raise TranslationError(f"tuple assignment {ast.unparse(node)}")
+            self.n += 1
+            tmps = [f"t{self.n}_{i + 1}_" for i in range(len(t.elts))]
+            first = [ast.Assign(targets=[ast.Name(id=n, ctx=ast.Store())], value=v) for n, v in zip(tmps, node.value.elts)]
+            then = [ast.Assign(targets=[tt], value=ast.Name(id=n, ctx=ast.Load())) for n, tt in zip(tmps, t.elts)]
+            return first + then
+        return node
+
+
+def generate_algkern(fns, gen_dir, write_if_changed):
+    import copy as _copy
+    apath = "spherical/modes/algebra.py"
+    atree = ast.parse(open(os.path.join(REPO, apath), encoding="utf-8").read())
+    out = [ALG_HEADER]
+    sig = {}
+    for name in ["conjugate", "_real_func", "_imag_func"]:
+        fd = find_function(atree, name)
+        stmts = [s for s in fd.body if not (isinstance(s, ast.Expr) and isinstance(s.value, ast.Constant))]
+        loops = [i for i, s in enumerate(stmts) if isinstance(s, ast.For)]
+        if len(loops) != 1:
+            raise TranslationError(f"algebra.{name}: expected one `for ell` loop")
+        i = loops[0]
+        pre = [nfkc(ast.unparse(s)) for s in stmts[max(0, i - 2):i]]
+        if pre != ["s = self.view(np.ndarray)", "c = s if inplace else np.zeros_like(s)"]:
+            raise TranslationError(f"algebra.{name}: prelude {pre}")
+        for inplace in (False, True):
+            loop = _AlgRewrite(inplace).visit(_copy.deepcopy(stmts[i]))
+            ast.fix_missing_locations(loop)
+            used = sorted({n.id for n in ast.walk(loop) if isinstance(n, ast.Name)} - {"range", "abs", "Yindex", "ell", "m", "i", "i_p", "i_n", "s", "c"})
+            used = [u for u in used if not (u.startswith("t") and u.endswith("_"))]
+            arrs = ["s"] if inplace else ["s", "c"]
+            lname = "Modes_" + name.strip("_").replace("_func", "") + ("_inplace" if inplace else "") + "_loop"
+            fdk = ast.parse(f"def {lname}({', '.join(arrs + used)}):\n    pass\n").body[0]
+            fdk.body = [loop]
+            ast.fix_missing_locations(fdk)
+            k, txt = KTr(fns, {}, set(), fdk, complex_arrays=set(arrs)).translate(lean_name=lname)
+            doc = "\n".join("      " + l for l in nfkc(ast.unparse(stmts[i])).splitlines())
+            out.append(f"/-- the loop of `Modes.{name}`" + (" with `c = s` (in place)" if inplace else " with `c = np.zeros_like(s)`") + f":\n\n{doc} -/\n" + txt)
+            sig[k.name] = [(p, k.kinds[p]) for p in k.params]
+    out.append("end\nend Gen\n")
+    write_if_changed(os.path.join(gen_dir, "AlgKern.lean"), "\n".join(out))
     return sig
